@@ -424,6 +424,7 @@ def r17_6(run):
     required_await(run, 'R17.6', li, lambda v: (dotted(v) or '').endswith('.post_bootstrap'),
                    lambda a: isinstance(a, ast.Call) and dotted(a.func) == 'self.tcp_endpoint.listen',
                    'the configuration bootstrap', 'the local listener is bound', 'await-config')
+    _release_awaited(run)
     # the releasing handler re-raises: listen() fails with the original error
     g = cfg_of(li)
     rel = [n for n in g.real_nodes() if any(isinstance(a, ast.Attribute) and a.attr == 'stopListening' for a in node_asts(n))]
@@ -434,6 +435,48 @@ def r17_6(run):
         run.ob('R17.6', li, n.ast, 'after releasing the listener the failure is re-raised', not any(e in r for e in g.normal_exits()), slot='reraise-after-release',
                message='listen() releases the listener in its failure handler but then carries on instead of re-raising: it fails later with an unrelated '
                        'assertion (or returns a port for a service that does not exist)')
+
+
+def _release_awaited(run):
+    """the release of the local listener is waited for before the failure is reported: a real tcp.Port closes asynchronously
+    (stopListening() returns a Deferred), so a release that is merely started leaves the listener open when listen() fails"""
+    li = LU(run)
+    k = 0
+    for u in [li] + [c for c in _all_children(li)]:
+        fn = u.node
+        if not isinstance(fn, (ast.FunctionDef, ast.AsyncFunctionDef, ast.Lambda)):
+            continue
+        parent = {}
+        for n in walk_unit(u):
+            for ch in ast.iter_child_nodes(n):
+                parent[id(ch)] = n
+        for a in walk_unit(u):
+            if not (isinstance(a, ast.Attribute) and a.attr == 'stopListening'):
+                continue
+            k += 1
+            # climb through the call / maybeDeferred wrapper to the consuming construct
+            x = a
+            while id(x) in parent and isinstance(parent[id(x)], (ast.Call, ast.Attribute)) and not (
+                    isinstance(parent[id(x)], ast.Call) and callee_attr(parent[id(x)]) in ('addCallback', 'addErrback', 'addBoth', 'addCallbacks') and x is not parent[id(x)].func):
+                x = parent[id(x)]
+            top = parent.get(id(x))
+            if isinstance(fn, ast.Lambda):
+                ok = True        # a lambda returns its body
+            elif u is li:
+                ok = isinstance(top, (ast.Yield, ast.Await))
+            else:
+                ok = isinstance(top, (ast.Return, ast.Yield, ast.Await))
+            run.ob('R17.6', u, a, 'the release of the local listener is waited for (yielded in listen, returned from a callback)', ok, slot='release-awaited@%s' % u.short,
+                   message='%s starts %s without waiting for it: listen() reports the failure while the local listener is still open' % (u.short, src(x)[:50]))
+    run.floor('R17.6', 'release sites in listen', k, 1)
+
+
+def _all_children(u):
+    out = []
+    for c in u.children:
+        out.append(c)
+        out.extend(_all_children(c))
+    return out
 
 
 RULES = [
@@ -450,6 +493,7 @@ RULES = [
 from ..selftest import M  # noqa: E402
 F = 'txtorcon/endpoints.py'
 MUTANTS = [
+    M('release-not-awaited', F, "                yield defer.maybeDeferred(port.stopListening)", "                defer.maybeDeferred(port.stopListening)", ['R17.6']),
     M('adopts-other-service', F, "                    if getattr(hs, 'dir', None) == os.path.abspath(self.hidden_service_dir):", "                    if getattr(hs, 'dir', None) != os.path.abspath(self.hidden_service_dir):", ['R17.4']),
     M('adopts-last-service', F, "                    if getattr(hs, 'dir', None) == os.path.abspath(self.hidden_service_dir):\n                        self.hiddenservice = hs", "                    self.hiddenservice = hs", ['R17.4']),
     M('keyfile-loaded-after-conflict-test', F, ["        if privateKeyFile is not None:\n            if privateKey is not None:", "        if hiddenServiceDir is not None and privateKey is not None:\n            raise ValueError(\n                \"Only one of hiddenServiceDir and privateKey/privateKeyFile accepted\"\n            )\n\n        if singleHop is not None:"], ["        if hiddenServiceDir is not None and privateKey is not None:\n            raise ValueError('conflict')\n        if privateKeyFile is not None:\n            if privateKey is not None:", "        if singleHop is not None:"], ['R17.5']),
@@ -475,5 +519,5 @@ MUTANTS = [
 ]
 TWINS = [
     M('loopback-constant', F, "'tcp:0:interface=127.0.0.1',", "'tcp:port=0:interface=127.0.0.1',"),
-    M('try-finally-flag', F, "            try:\n                self.hiddenservice = yield create_d\n            except Exception:\n                # the service didn't come up, so don't leave our\n                # local listener behind\n                port, self.tcp_listening_port = self.tcp_listening_port, None\n                yield defer.maybeDeferred(port.stopListening)\n                raise\n", "            try:\n                self.hiddenservice = yield create_d\n            except BaseException:\n                port = self.tcp_listening_port\n                self.tcp_listening_port = None\n                port.stopListening()\n                raise\n"),
+    M('try-finally-flag', F, "            try:\n                self.hiddenservice = yield create_d\n            except Exception:\n                # the service didn't come up, so don't leave our\n                # local listener behind\n                port, self.tcp_listening_port = self.tcp_listening_port, None\n                yield defer.maybeDeferred(port.stopListening)\n                raise\n", "            try:\n                self.hiddenservice = yield create_d\n            except BaseException:\n                port = self.tcp_listening_port\n                self.tcp_listening_port = None\n                yield port.stopListening()\n                raise\n"),
 ]
